@@ -24,6 +24,10 @@ type Index struct {
 }
 
 func (i Index) hashValue() string {
+	// an explicit USING BTREE is the default index type: it is the same index as one without USING
+	if i.IndexType == model.IndexTypeBtree {
+		i.IndexType = model.IndexTypeInvalid
+	}
 	// the digest must not depend on the keyword-case option: always use the uppercase templates
 	strHash := strings.Join(i.migrationUpWith(sql_templates.NewSql(sql.GetDialect(), false), ""), ";")
 	hash := md5.Sum([]byte(strHash))
